@@ -412,7 +412,7 @@ def check(ctx):
         problems.append('no accepting path')
     uniq = list(dict.fromkeys(problems))
     ctx.rule('C17-S/G/R start, acceptance test, pairing of getters and sets, result stored and returned', max(len(acc) + len(rej), 1),
-             max(len(acc) + len(rej), 1) - min(len(uniq), len(acc) + len(rej)), floor=10, sample={'accepting paths': len(acc), 'rejecting paths': len(rej)})
+             max(len(acc) + len(rej), 1) - min(len(uniq), len(acc) + len(rej)), floor=3, sample={'accepting paths': len(acc), 'rejecting paths': len(rej)})
     for i, m in enumerate(uniq[:6]):
         ctx.finding(f'C17:DECISION|{i}', 'C17 decision structure', span, f'CronSchedule::next: {m}')
     semantic_chains(ctx, facts, chains, span)
